@@ -149,6 +149,12 @@ PACK_ASSUME = ["arena.go gamma/pi (order- and prefix-preserving name table, mode
 ADDR_JUDGE = {"module": "Judge_Addr", "cfg": "Judge_Addr.cfg"}
 
 
+def addr_rec_stage(tier):
+    # direction B: strings mutated (1-3 edits: delete / insert / replace / duplicate / swap / cut / splice / case) from 28 valid and
+    # near-valid addresses, through the source and final-source parsers; Judge_Addr: policy on whatever is accepted, no panic
+    return dict(kind="rec", name="mutated", recorder="addrrec", n=6000 if tier == "quick" else 100000, judge=dict(ADDR_JUDGE, timeout=3000))
+
+
 def addr_stages(prop, tier, seed):
     q = tier == "quick"
     alg = dict(name="algebra", module="Addr", cfg="MC_Addr.cfg", family="addr", judge=ADDR_JUDGE, exhaustive=True,
@@ -159,7 +165,7 @@ def addr_stages(prop, tier, seed):
     if prop == "C11":
         return [alg]
     if prop == "C07":
-        return [syn]
+        return [syn, addr_rec_stage(tier)]
     if prop == "C06":
         return [syn, alg]
     raise KeyError(prop)
@@ -193,8 +199,10 @@ def builder_stages(prop, tier, seed):
     coal = builder_stage("coalesce", prop, seed, {"Contents": "{1, 2}", "MetaFlags": "{TRUE, FALSE}", "MaxEdges": "1", "Adds": "<- MCAddsR"})
     finders = builder_stage("finders", prop, seed, {"Finders": '{"F1", "F2"}', "LocalRels": "<- MCLocalRelsSelf", "MaxEdges": "2", "MaxAdds": "1",
                                                      "Vers": "{1}", "AllowedSets": "<- MCAllowed1", "Adds": "<- MCAddsF", "MaxDeps": "2"})
+    # two concurrent callers: one Add each with up to two dependency edges (quick), two Adds each with one edge (thorough:
+    # 4.4 million states, 7.1e5 forced schedules, about 17 minutes)
     sched = builder_stage("sched", prop, seed, {"Callers": '{"c1", "c2"}', "MaxAdds": "1" if q else "2", "Adds": "<- MCAddsR", "RegPkgs": "{}",
-                                                 "Concurrent": "TRUE", "MaxEdges": "2", "LocalRels": "<- MCLocalRels0"})
+                                                 "Concurrent": "TRUE", "MaxEdges": "2" if q else "1", "LocalRels": "<- MCLocalRels0"})
     conc = builder_stage("conc", prop, seed, {"Adds": "<- MCAddsR", "RegPkgs": "{}", "MaxEdges": "1", "MaxAdds": "2", "Contents": "{1, 2}"},
                          race=True, vh_args=["-props", prop, "-gamma", "%d" % (seed * 6), "-mode", "conc"])
     live = [dict(kind="design", name="live1", module="Live_Builder", cfg="Live_Builder.cfg", properties=["Terminates", "EachDrainEnds", "QueuesBounded"]),
